@@ -288,6 +288,20 @@ def cvc5_verdict(solver, extra, timeout_ms=20000):
     return verdict
 
 
+_PROXY_NAMES = ('SymInt', 'SymBool', 'SymBytes', 'SymStr', 'AtomStr', 'SymMap', 'SymTable', 'GuardedList', 'SymStream',
+                'SymSet', 'SymFlag', 'PresenceDict')
+
+
+def proxy_rejected(e):
+    """an exception that only says 'a C function does not take my proxy object': the engine's limitation, not the
+    behaviour of the code under test.  Harnesses call this where they catch the code's exceptions."""
+    if isinstance(e, (TypeError, AttributeError, ValueError)):
+        msg = str(e.args[0]) if e.args and isinstance(e.args[0], str) else ''
+        if any(n in msg for n in _PROXY_NAMES):
+            raise Unsupported('a C-level operation rejected a proxy value: %s: %s' % (type(e).__name__, msg[:160]))
+    return e
+
+
 def as_bool(c):
     """SymBool | SymInt | bool | z3 Bool -> True | False | z3 Bool"""
     from .values import SymBool, SymInt
